@@ -421,46 +421,26 @@ theorem compiledJ_spec (thr τ : Rat) (hthr : 0 ≤ thr) (hτ : 0 < τ) (pm : Mo
 theorem mem_gridR {T : List Rat} {q : Rat} (h : q ∈ T) : ((q : ℚ) : ℝ) ∈ gridR T := by
   unfold gridR; exact List.mem_map.mpr ⟨q, h, rfl⟩
 
-/-- **channels_sliceProd.**  Labels `ls` (distinct), instructions `J` (rectangular, labels in `ls`), every label's channel
-non-empty and `ValidG` (C12: sorted, non-overlapping, idle gaps `0` or above the tolerance `thr`), the list order compatible
-with the time order (a pair whose generators do not commute is separated in time, in list order).  With the compiled
-channels of C12 (`closedChannelT`), the merged grid `T` of C14 (`sortU` of all grid points) and the rows of
-`get_full_coeffs` (`stepAt` of every channel on `T`): the product of the slice exponentials `run_analytically` forms is the
-ordered product of `exp(−i·d_j·c_j·H_{l_j})` over the instructions. -/
-theorem channels_sliceProd (H : ℕ → Matrix n n ℂ) (thr τ : Rat) (hthr : 0 ≤ thr) (hτ : 0 < τ) (pm : Mode)
-    (final ms : Rat) (hms : 0 < ms) (ls : List ℕ) (hne : ls ≠ []) (hnd : ls.Nodup) (J : List RI)
-    (hJ : ∀ j ∈ J, ∀ l, j.chan = some l → l ∈ ls)
-    (hch : ∀ l ∈ ls, chanJ l J ≠ [] ∧ ValidG thr 0 (chanJ l J))
+/-- **specRows_sliceProd** (the core, for any grid): labels `ls` (distinct), rectangular instructions with labels in `ls`, every
+channel a chain; a grid `T` that increases strictly from `0` and contains start and end of every pulse; list order compatible
+with the time order.  Then the slice product over `T` of the rows "scheduled function of channel `l` sampled on `T`" is the
+ordered product of `exp(−i·d_j·c_j·H_{l_j})`. -/
+theorem specRows_sliceProd (H : ℕ → Matrix n n ℂ) (ls : List ℕ) (hnd : ls.Nodup) (J : List RI)
+    (hJ : ∀ j ∈ J, ∀ l, j.chan = some l → l ∈ ls) (hchain : ∀ l ∈ ls, Chain 0 (chanJ l J))
+    (T : List Rat) (hT : T.Pairwise (· < ·)) (h0T : T.head? = some 0)
+    (hmem : ∀ j ∈ J, ∀ l, j.chan = some l → j.s ∈ T ∧ j.s + j.d ∈ T)
     (hcomp : J.Pairwise fun u v => Commute (u.gen H) (v.gen H) ∨ u.s + u.d ≤ v.s) :
-    let chans := ls.map (compiledJ thr τ pm final ms J)
-    let T := sortU (chans.map (·.1)).flatten
-    ordProdL (runAnalytically 0 (ls.map H) (slices T (chans.map fun c => T.map (stepAt c.1 c.2)))) =
+    ordProdL (runAnalytically 0 (ls.map H) (slices T (ls.map fun l => T.map (specAt (chanJ l J))))) =
       ordProdL (J.map fun j => evolve (j.gen H) ((j.d : ℚ) : ℝ)) := by
-  intro chans T
-  have hspec := fun l hl => compiledJ_spec thr τ hthr hτ pm final ms hms J l (hch l hl).1 (hch l hl).2
-  have hchain : ∀ l ∈ ls, Chain 0 (chanJ l J) := fun l hl => ValidG.chain (hch l hl).2
-  have hT : T.Pairwise (· < ·) := sortU_pairwise _
-  have hsubT : ∀ l ∈ ls, ∀ p ∈ (compiledJ thr τ pm final ms J l).1, p ∈ T := by
-    intro l hl p hp
-    exact mem_sortU.mpr (List.mem_flatten.mpr ⟨_, List.mem_map.mpr ⟨_, List.mem_map.mpr ⟨l, hl, rfl⟩, rfl⟩, hp⟩)
-  -- rows: the scheduled functions sampled on the merged grid
-  have hrows : (chans.map fun c => T.map (stepAt c.1 c.2)) = ls.map fun l => T.map (specAt (chanJ l J)) := by
-    simp only [chans, List.map_map]
-    apply List.map_congr_left
-    intro l hl
-    apply List.map_congr_left
-    intro t _
-    exact (hspec l hl).2.2.2.2.1 t
-  rw [hrows, ordProdL_runAnalytically 0 (ls.map H) ls (fun l => specAt (chanJ l J)) T]
-  -- facts about the instructions that carry a pulse
+  rw [ordProdL_runAnalytically 0 (ls.map H) ls (fun l => specAt (chanJ l J)) T]
   have hfacts : ∀ j ∈ J, ∀ l, j.chan = some l → 0 < j.d ∧ 0 ≤ j.s ∧ j.s ∈ T ∧ j.s + j.d ∈ T := by
     intro j hj l hjl
     have hl := hJ j hj l hjl
     have hin := chanJ_mem hj hjl
     have hw : WaveOK (Wave.scalar j.d j.c) := chain_all_ok (hchain l hl) _ hin
     have hs0 := chain_starts (hchain l hl) _ hin
-    obtain ⟨m1, m2⟩ := (hspec l hl).2.2.2.2.2 j hj hjl
-    exact ⟨hw, hs0, hsubT l hl _ m1, hsubT l hl _ m2⟩
+    obtain ⟨m1, m2⟩ := hmem j hj l hjl
+    exact ⟨hw, hs0, m1, m2⟩
   have hwins : ∀ w ∈ wins H J, ∃ j ∈ J, ∃ l, j.chan = some l ∧ w = j.win H := by
     intro w hw
     unfold wins at hw
@@ -474,32 +454,11 @@ theorem channels_sliceProd (H : ℕ → Matrix n n ℂ) (thr τ : Rat) (hthr : 0
     obtain ⟨_, _, m1, m2⟩ := hfacts j hj l hjl
     exact Win.aligned_of_mem _ _ (gridR_pairwise hT) (mem_gridR m1) (mem_gridR m2)
   rw [sliceHams_eq_winHams H ls hnd J hJ hchain T hT hal]
-  -- the merged grid starts at 0
-  obtain ⟨l0, hl0⟩ := List.exists_mem_of_ne_nil ls hne
-  have h0T : T.head? = some 0 := by
-    apply head_sortU_zero
-    · have := (hspec l0 hl0).1
-      have hmem : (0 : Rat) ∈ (compiledJ thr τ pm final ms J l0).1 := by
-        match hg : (compiledJ thr τ pm final ms J l0).1, this with
-        | a :: r, this => simp at this; simp [this]
-      exact List.mem_flatten.mpr ⟨_, List.mem_map.mpr ⟨_, List.mem_map.mpr ⟨l0, hl0, rfl⟩, rfl⟩, hmem⟩
-    · intro x hx
-      obtain ⟨g, hg, hxg⟩ := List.mem_flatten.mp hx
-      obtain ⟨c, hc, rfl⟩ := List.mem_map.mp hg
-      obtain ⟨l, hl, rfl⟩ := List.mem_map.mp hc
-      obtain ⟨hh, hp, _⟩ := hspec l hl
-      match hcl : (compiledJ thr τ pm final ms J l).1, hh, hp, hxg with
-      | a :: rest, hh, hp, hxg =>
-        simp at hh; subst hh
-        rcases List.mem_cons.mp hxg with rfl | h
-        · exact le_rfl
-        · exact le_of_lt ((List.pairwise_cons.mp hp).1 x h)
   match hTe : T, h0T with
   | a :: T', h0T =>
     simp only [List.head?_cons, Option.some.injEq] at h0T
     subst h0T
     have hgr : gridR (0 :: T') = ((0 : ℚ) : ℝ) :: gridR T' := rfl
-    rw [hTe] at hT hal hfacts
     rw [hgr] at hal ⊢
     rw [sliceProd_eq_windows (wins H J) (gridR T') _ (by rw [← hgr]; exact gridR_pairwise hT)]
     · -- the product over the windows is the product over all instructions
@@ -548,5 +507,135 @@ theorem channels_sliceProd (H : ℕ → Matrix n n ℂ) (thr τ : Rat) (hthr : 0
       show (((j.s + j.d : Rat) : ℚ) : ℝ) ≤ ((q : ℚ) : ℝ)
       have := le_getLast _ q hT hq _ m2
       exact_mod_cast this
+
+
+/-- **channels_sliceProd.**  Labels `ls` (distinct), instructions `J` (rectangular, labels in `ls`), every label's channel
+non-empty and `ValidG` (C12: sorted, non-overlapping, idle gaps `0` or above the tolerance `thr`), the list order compatible
+with the time order (a pair whose generators do not commute is separated in time, in list order).  With the compiled
+channels of C12 (`closedChannelT`), the merged grid `T` of C14 (`sortU` of all grid points) and the rows of
+`get_full_coeffs` (`stepAt` of every channel on `T`): the product of the slice exponentials `run_analytically` forms is the
+ordered product of `exp(−i·d_j·c_j·H_{l_j})` over the instructions. -/
+theorem channels_sliceProd (H : ℕ → Matrix n n ℂ) (thr τ : Rat) (hthr : 0 ≤ thr) (hτ : 0 < τ) (pm : Mode)
+    (final ms : Rat) (hms : 0 < ms) (ls : List ℕ) (hne : ls ≠ []) (hnd : ls.Nodup) (J : List RI)
+    (hJ : ∀ j ∈ J, ∀ l, j.chan = some l → l ∈ ls)
+    (hch : ∀ l ∈ ls, chanJ l J ≠ [] ∧ ValidG thr 0 (chanJ l J))
+    (hcomp : J.Pairwise fun u v => Commute (u.gen H) (v.gen H) ∨ u.s + u.d ≤ v.s) :
+    let chans := ls.map (compiledJ thr τ pm final ms J)
+    let T := sortU (chans.map (·.1)).flatten
+    ordProdL (runAnalytically 0 (ls.map H) (slices T (chans.map fun c => T.map (stepAt c.1 c.2)))) =
+      ordProdL (J.map fun j => evolve (j.gen H) ((j.d : ℚ) : ℝ)) := by
+  intro chans T
+  have hspec := fun l hl => compiledJ_spec thr τ hthr hτ pm final ms hms J l (hch l hl).1 (hch l hl).2
+  have hchain : ∀ l ∈ ls, Chain 0 (chanJ l J) := fun l hl => ValidG.chain (hch l hl).2
+  have hT : T.Pairwise (· < ·) := sortU_pairwise _
+  have hsubT : ∀ l ∈ ls, ∀ p ∈ (compiledJ thr τ pm final ms J l).1, p ∈ T := by
+    intro l hl p hp
+    exact mem_sortU.mpr (List.mem_flatten.mpr ⟨_, List.mem_map.mpr ⟨_, List.mem_map.mpr ⟨l, hl, rfl⟩, rfl⟩, hp⟩)
+  -- rows: the scheduled functions sampled on the merged grid
+  have hrows : (chans.map fun c => T.map (stepAt c.1 c.2)) = ls.map fun l => T.map (specAt (chanJ l J)) := by
+    simp only [chans, List.map_map]
+    apply List.map_congr_left
+    intro l hl
+    apply List.map_congr_left
+    intro t _
+    exact (hspec l hl).2.2.2.2.1 t
+  rw [hrows]
+  -- the merged grid starts at 0
+  obtain ⟨l0, hl0⟩ := List.exists_mem_of_ne_nil ls hne
+  have h0T : T.head? = some 0 := by
+    apply head_sortU_zero
+    · have := (hspec l0 hl0).1
+      have hmem : (0 : Rat) ∈ (compiledJ thr τ pm final ms J l0).1 := by
+        match hg : (compiledJ thr τ pm final ms J l0).1, this with
+        | a :: r, this => simp at this; simp [this]
+      exact List.mem_flatten.mpr ⟨_, List.mem_map.mpr ⟨_, List.mem_map.mpr ⟨l0, hl0, rfl⟩, rfl⟩, hmem⟩
+    · intro x hx
+      obtain ⟨g, hg, hxg⟩ := List.mem_flatten.mp hx
+      obtain ⟨c, hc, rfl⟩ := List.mem_map.mp hg
+      obtain ⟨l, hl, rfl⟩ := List.mem_map.mp hc
+      obtain ⟨hh, hp, _⟩ := hspec l hl
+      match hcl : (compiledJ thr τ pm final ms J l).1, hh, hp, hxg with
+      | a :: rest, hh, hp, hxg =>
+        simp at hh; subst hh
+        rcases List.mem_cons.mp hxg with rfl | h
+        · exact le_rfl
+        · exact le_of_lt ((List.pairwise_cons.mp hp).1 x h)
+  exact specRows_sliceProd H ls hnd J hJ hchain T hT h0T
+    (fun j hj l hjl => by
+      have hl := hJ j hj l hjl
+      obtain ⟨m1, m2⟩ := (hspec l hl).2.2.2.2.2 j hj hjl
+      exact ⟨hsubT l hl _ m1, hsubT l hl _ m2⟩) hcomp
+
+/-- **channels_sliceProd_all** — with the control channels that receive no pulse.  `all`: the labels of every control of the
+processor (distinct), `ls ⊆ all` the labels in use.  The rows of `get_full_coeffs` are the step functions of the compiled
+channels for the labels in use and rows of zeros for the others; the control list is `all.map H`.  Same conclusion. -/
+theorem channels_sliceProd_all (H : ℕ → Matrix n n ℂ) (thr τ : Rat) (hthr : 0 ≤ thr) (hτ : 0 < τ) (pm : Mode)
+    (final ms : Rat) (hms : 0 < ms) (all : List ℕ) (hall : all.Nodup) (ls : List ℕ) (hne : ls ≠ [])
+    (hsub : ∀ l ∈ ls, l ∈ all) (J : List RI)
+    (hJ : ∀ j ∈ J, ∀ l, j.chan = some l → l ∈ ls)
+    (hch : ∀ l ∈ ls, chanJ l J ≠ [] ∧ ValidG thr 0 (chanJ l J))
+    (hcomp : J.Pairwise fun u v => Commute (u.gen H) (v.gen H) ∨ u.s + u.d ≤ v.s) :
+    let chans := ls.map (compiledJ thr τ pm final ms J)
+    let T := sortU (chans.map (·.1)).flatten
+    ordProdL (runAnalytically 0 (all.map H) (slices T (all.map fun l =>
+        if l ∈ ls then T.map (stepAt (compiledJ thr τ pm final ms J l).1 (compiledJ thr τ pm final ms J l).2)
+        else T.map fun _ => (0 : Rat)))) =
+      ordProdL (J.map fun j => evolve (j.gen H) ((j.d : ℚ) : ℝ)) := by
+  intro chans T
+  have hspec := fun l hl => compiledJ_spec thr τ hthr hτ pm final ms hms J l (hch l hl).1 (hch l hl).2
+  have hchain : ∀ l ∈ ls, Chain 0 (chanJ l J) := fun l hl => ValidG.chain (hch l hl).2
+  have hT : T.Pairwise (· < ·) := sortU_pairwise _
+  have hsubT : ∀ l ∈ ls, ∀ p ∈ (compiledJ thr τ pm final ms J l).1, p ∈ T := by
+    intro l hl p hp
+    exact mem_sortU.mpr (List.mem_flatten.mpr ⟨_, List.mem_map.mpr ⟨_, List.mem_map.mpr ⟨l, hl, rfl⟩, rfl⟩, hp⟩)
+  have hempty : ∀ l, l ∉ ls → chanJ l J = [] := by
+    intro l hl
+    by_contra hne'
+    obtain ⟨sw, hsw⟩ := List.exists_mem_of_ne_nil _ hne'
+    obtain ⟨j, hj, hjl, _⟩ := mem_chanJ hsw
+    exact hl (hJ j hj l hjl)
+  have hrows : (all.map fun l =>
+        if l ∈ ls then T.map (stepAt (compiledJ thr τ pm final ms J l).1 (compiledJ thr τ pm final ms J l).2)
+        else T.map fun _ => (0 : Rat)) = all.map fun l => T.map (specAt (chanJ l J)) := by
+    apply List.map_congr_left
+    intro l _
+    by_cases hl : l ∈ ls
+    · rw [if_pos hl]
+      apply List.map_congr_left
+      intro t _
+      exact (hspec l hl).2.2.2.2.1 t
+    · rw [if_neg hl, hempty l hl]
+      rfl
+  rw [hrows]
+  -- the merged grid starts at 0
+  obtain ⟨l0, hl0⟩ := List.exists_mem_of_ne_nil ls hne
+  have h0T : T.head? = some 0 := by
+    apply head_sortU_zero
+    · have := (hspec l0 hl0).1
+      have hmem : (0 : Rat) ∈ (compiledJ thr τ pm final ms J l0).1 := by
+        match hg : (compiledJ thr τ pm final ms J l0).1, this with
+        | a :: r, this => simp at this; simp [this]
+      exact List.mem_flatten.mpr ⟨_, List.mem_map.mpr ⟨_, List.mem_map.mpr ⟨l0, hl0, rfl⟩, rfl⟩, hmem⟩
+    · intro x hx
+      obtain ⟨g, hg, hxg⟩ := List.mem_flatten.mp hx
+      obtain ⟨c, hc, rfl⟩ := List.mem_map.mp hg
+      obtain ⟨l, hl, rfl⟩ := List.mem_map.mp hc
+      obtain ⟨hh, hp, _⟩ := hspec l hl
+      match hcl : (compiledJ thr τ pm final ms J l).1, hh, hp, hxg with
+      | a :: rest, hh, hp, hxg =>
+        simp at hh; subst hh
+        rcases List.mem_cons.mp hxg with rfl | h
+        · exact le_rfl
+        · exact le_of_lt ((List.pairwise_cons.mp hp).1 x h)
+  have hchain' : ∀ l ∈ all, Chain 0 (chanJ l J) := by
+    intro l _
+    by_cases hl : l ∈ ls
+    · exact hchain l hl
+    · rw [hempty l hl]; trivial
+  exact specRows_sliceProd H all hall J (fun j hj l hjl => hsub l (hJ j hj l hjl)) hchain' T hT h0T
+    (fun j hj l hjl => by
+      have hl := hJ j hj l hjl
+      obtain ⟨m1, m2⟩ := (hspec l hl).2.2.2.2.2 j hj hjl
+      exact ⟨hsubT l hl _ m1, hsubT l hl _ m2⟩) hcomp
 
 end QipVerif.Compose
